@@ -242,6 +242,13 @@ def finish(ctx: Ctx) -> int:
     return 0
 
 
+def full_check(mod, ctx):
+    """the property's own rules, then the cross-cutting call-binding rule over the modules they consulted"""
+    mod.check(ctx)
+    from . import sigrules
+    sigrules.check_bindings(ctx)
+
+
 def run_check(prop: str, tier: str, fn, seed: int = 0) -> int:
     t0 = time.time()
     try:
